@@ -212,6 +212,9 @@ func init() {
 				Quick:    grid([]string{"M", "P", "n", "maxCycles", "run"}, []int{3}, []int{1, 2}, []int{0, 1, 2}, []int{2}, []int{0, 1}),
 				Thorough: grid([]string{"M", "P", "n", "maxCycles", "run"}, []int{3, 4}, []int{1, 2}, []int{0, 1, 2, 3}, []int{1, 3}, []int{0, 1})},
 			{Name: "C13_reset_fresh", Expect: []string{"end", "reset-equals-fresh"}, Witnesses: 4,
+				Quick:    grid([]string{"M", "P", "n", "steps", "maxCycles", "codelen", "subset"}, []int{3}, []int{1}, []int{2}, []int{0, 1}, []int{2}, []int{1}, []int{1}),
+				Thorough: grid([]string{"M", "P", "n", "steps", "maxCycles", "codelen", "subset"}, []int{3}, []int{1, 2}, []int{2}, []int{0, 1}, []int{2}, []int{1, 2}, []int{1})},
+			{Name: "C13_reset_fresh", Expect: []string{"end", "reset-equals-fresh"}, Witnesses: 4,
 				Quick:    grid([]string{"M", "P", "n", "steps", "maxCycles", "codelen"}, []int{3}, []int{1, 2}, []int{1, 2}, []int{0, 1}, []int{2}, []int{1, 2}),
 				Thorough: grid([]string{"M", "P", "n", "steps", "maxCycles", "codelen"}, []int{3, 4}, []int{1, 2}, []int{1, 2, 3}, []int{0, 1, 2}, []int{3}, []int{1, 2})},
 		},
@@ -345,7 +348,7 @@ func init() {
 		Harnesses: []HarnessSpec{
 			{Name: "C10_reader", Expect: []string{"done", "accepted", "rejected"}, Witnesses: 8,
 				Quick:    append(grid([]string{"M", "legacy", "lines", "finalNL", "kset"}, []int{8000}, []int{0, 1}, []int{1}, []int{0, 1}, []int{0}), grid([]string{"M", "legacy", "lines", "finalNL", "kset"}, []int{8000}, []int{0, 1}, []int{2}, []int{0, 1}, []int{1})...),
-				Thorough: append(grid([]string{"M", "legacy", "lines", "finalNL", "kset"}, []int{8, 8000}, []int{0, 1}, []int{1, 2}, []int{0, 1}, []int{0}), grid([]string{"M", "legacy", "lines", "finalNL", "kset"}, []int{8000}, []int{0, 1}, []int{3}, []int{0, 1}, []int{1})...)},
+				Thorough: append(grid([]string{"M", "legacy", "lines", "finalNL", "kset"}, []int{8, 8000}, []int{0, 1}, []int{1}, []int{0, 1}, []int{0}), grid([]string{"M", "legacy", "lines", "finalNL", "kset"}, []int{8, 8000}, []int{0, 1}, []int{2}, []int{0, 1}, []int{1})...)},
 		},
 	})
 	Properties = append(Properties, &PropertySpec{
